@@ -234,13 +234,25 @@ func errSurfaces(c *Ctx, fn *ssa.Function, call *ssa.Call, isIO func(ssa.CallIns
 	isSink := func(in ssa.Instruction) (bool, string) {
 		switch x := in.(type) {
 		case *ssa.Return:
-			for _, rv := range x.Results {
+			// defer-spilled results: `*cell = v; rundefers; t = *cell; return t` -- look at what this block stored
+			results := make([]ssa.Value, len(x.Results))
+			for i, rv := range x.Results {
+				results[i] = rv
+				if u, ok := rv.(*ssa.UnOp); ok && u.Op == token.MUL {
+					if a, ok := u.X.(*ssa.Alloc); ok {
+						if v := lastStoreBefore(a, u); v != nil {
+							results[i] = v
+						}
+					}
+				}
+			}
+			for _, rv := range results {
 				if carries(rv) {
 					return true, "returned"
 				}
 			}
 			// returns some other non-nil error
-			for _, rv := range x.Results {
+			for _, rv := range results {
 				if isErrorType(rv.Type()) && !isNilConst(rv) {
 					if _, isPhi := rv.(*ssa.Phi); !isPhi {
 						return true, "another non-nil error returned"
